@@ -15,7 +15,7 @@ ARRAY_CARRIERS = ['ndarray-f64', 'ndarray-f32', 'ndarray-i64', 'ndarray-i32', 'n
                   'nested-tuple', 'list-decstr', 'ndarray-2d', 'list-np.int8', 'list-np.int16', 'tuple-np.int32', 'list-np.uint8', 'list-np.float16',
                   'tuple-np.float32', 'list-np.uint16', 'list-mixed-np']
 ROUTES = ['ctor', 'call', 'set_val', 'setitem', 'setitem-slice', 'setitem-2d', 'call-reset', 'recfg', 'setitem-reuse',
-          'resize-signed', 'resize-fmt', 'like-signed', 'widen-setitem', 'odd-config']
+          'resize-signed', 'resize-fmt', 'like-signed', 'widen-setitem', 'odd-config', 'config-obj']
 _OTHER = {'trunc': 'around', 'fix': 'ceil', 'floor': 'trunc', 'ceil': 'floor', 'around': 'fix', 'saturate': 'wrap', 'wrap': 'saturate'}
 
 
@@ -215,6 +215,10 @@ def do_write(fx, np, route, obj, fmt, modes, n, raw=False):
         x.config.rounding = modes[0]
         x.config.overflow = modes[1]
         x.reset()
+        x.set_val(obj)
+        return x, x
+    if route == 'config-obj':        # the modes arrive inside a Config object built on its own
+        x = Fxp(None, s, w, f, config=fx.Config(rounding=modes[0], overflow=modes[1]))
         x.set_val(obj)
         return x, x
     if route == 'odd-config':        # every configuration attribute that has nothing to do with storing is set to a non-default value
